@@ -103,10 +103,10 @@ func genAllocConc(c *ctx) {
 		var held []net.IPNet
 		if c.rng.Intn(2) == 0 && nblocks >= 2 {
 			// the very first calls of a fresh allocator, at once (round 9: a bitmap created lazily outside the lock): the
-			// blocks handed out are pairwise different. 60 fresh allocators like the one under test, k callers each
+			// blocks handed out are pairwise different. 600 fresh allocators like the one under test, k callers each
 			k := 2 + c.rng.Intn(7)
 			fresh := "ok"
-			for round := 0; round < 60 && fresh == "ok"; round++ {
+			for round := 0; round < 600 && fresh == "ok"; round++ {
 				a := mk()
 				if a == nil {
 					break
